@@ -317,7 +317,7 @@ func c09(c *core.Check) {
 		}
 	}
 	c09Spans(c)
-	r6 := c.Rule("R6", "no call passes two same-typed arguments under each other's parameter names (swapped arguments): every pair of arguments named after the callee's parameters is aligned with them", 7)
+	r6 := c.Rule("R6", "no call passes two same-typed arguments under each other's parameter names (swapped arguments): every pair of arguments named after the callee's parameters is aligned with them", 4)
 	argNameRule(c, r6, "html/boxes", nil, 7)
 }
 
@@ -588,9 +588,9 @@ func c11(c *core.Check) {
 
 	r3 := c.Rule("R3", "sibling symmetry in inline layout code: two assignments of one block that differ by a side (Top/Bottom, Left/Right) on the left and have the same shape on the right mirror every side name of that axis", 1)
 	sideSymmetryRule(c, r3, "html/layout", map[string]bool{"inline.go": true, "leader.go": true}, 1)
-	r4 := c.Rule("R4", "box-edge sums of the inline layout code mention margin, padding and border with the same sides", 5)
+	r4 := c.Rule("R4", "box-edge sums of the inline layout code mention margin, padding and border with the same sides", 3)
 	sideSumRule(c, r4, "html/layout", map[string]bool{"inline.go": true, "leader.go": true}, 5)
-	r5 := c.Rule("R5", "no call passes two same-typed arguments under each other's parameter names (swapped arguments): every pair of arguments named after the callee's parameters is aligned with them", 45)
+	r5 := c.Rule("R5", "no call passes two same-typed arguments under each other's parameter names (swapped arguments): every pair of arguments named after the callee's parameters is aligned with them", 30)
 	argNameRule(c, r5, "html/layout", map[string]bool{"inline.go": true, "leader.go": true}, 40)
 	argNameRule(c, r5, "text", nil, 5)
 
@@ -711,8 +711,8 @@ func c12(c *core.Check) {
 	r2 := c.Rule("R2", "tree.pageTypeMatch divides and takes the remainder by the :nth() step only where it is proven non-zero", 2)
 	divisionRule(c, r2, func(fn *ssa.Function) bool { return fn.Name() == "pageTypeMatch" && inPkgs("html/tree")(fn) })
 
-	r3 := c.Rule("R3", "box-edge sums of the fragmentation code (the space kept at the bottom of a page for paddings and borders, page margins) mention margin, padding and border with the same sides", 7)
+	r3 := c.Rule("R3", "box-edge sums of the fragmentation code (the space kept at the bottom of a page for paddings and borders, page margins) mention margin, padding and border with the same sides", 4)
 	sideSumRule(c, r3, "html/layout", map[string]bool{"blocks.go": true, "pages.go": true, "columns.go": true}, 7)
-	r4b := c.Rule("R4", "no call passes two same-typed arguments under each other's parameter names (swapped arguments): every pair of arguments named after the callee's parameters is aligned with them", 40)
+	r4b := c.Rule("R4", "no call passes two same-typed arguments under each other's parameter names (swapped arguments): every pair of arguments named after the callee's parameters is aligned with them", 26)
 	argNameRule(c, r4b, "html/layout", map[string]bool{"blocks.go": true, "pages.go": true, "columns.go": true}, 40)
 }
